@@ -358,7 +358,7 @@ class BigTtlTriplesYielder(BaseTriplesYielder):
         elif raw_elem in _RDF_TYPE_CONTRACTED:
             return _RDF_TYPE_URI
         elif raw_elem.startswith('"'):  # it's a literal, will be better parsed later
-            return raw_elem
+            return self._expand_prefixed_datatype_if_needed(raw_elem)
         elif ":" in raw_elem:
             if raw_elem.startswith("_:"):
                 return raw_elem
@@ -367,6 +367,13 @@ class BigTtlTriplesYielder(BaseTriplesYielder):
         elif raw_elem in _BOOLEANS or self._is_num_literal(raw_elem):
             return raw_elem
             # else?? shouldnt happen, let it break with a nullpoitner
+
+    def _expand_prefixed_datatype_if_needed(self, raw_literal):
+        last_quotes = raw_literal.rfind('"')
+        if raw_literal[last_quotes + 1:last_quotes + 3] != "^^" or raw_literal[last_quotes + 3:last_quotes + 4] == "<":
+            return raw_literal  # Not typed, or typed with a complete URI
+        return raw_literal[:last_quotes + 3] + unprefixize_uri_mandatory(target_uri=raw_literal[last_quotes + 3:],
+                                                                         prefix_namespaces_dict=self._prefixes)
 
     def _parse_cornered_element(self, cornered_element):
         if self._base is None:
